@@ -23,7 +23,12 @@ type Repo struct {
 	Log     []string // mutation names in order
 	AbortAt int      // index of the first mutation that does not happen; -1 = never
 	Dead    bool
+	// Transient: the mutation #AbortAt fails (disk full, permission, a lock taken by another tool) and is not
+	// performed, but the process lives on and everything after it works again
+	Transient bool
 }
+
+var ErrTransient = errors.New("faultrepo: injected failure of one storage operation")
 
 func New(inner repository.ClockedRepo, abortAt int) *Repo {
 	return &Repo{ClockedRepo: inner, AbortAt: abortAt}
@@ -37,6 +42,10 @@ func (r *Repo) step(name string) error {
 		return ErrCrashed
 	}
 	if r.AbortAt >= 0 && len(r.Log) == r.AbortAt {
+		if r.Transient {
+			r.Log = append(r.Log, name+"(failed)")
+			return ErrTransient
+		}
 		r.Dead = true
 		return ErrCrashed
 	}
